@@ -107,7 +107,7 @@ DECL = re.compile(r"(?:^|[;{}\n])\s*(?:realtype|double)\s+(\w+)\s*=\s*([^;]*);")
 def ids_of(expr: str):
     try:
         n = cexpr.names(cexpr.parse(expr))
-    except cexpr.ParseError:
+    except (cexpr.ParseError, RecursionError):      # (a sum of thousands of terms nests deeper than the interpreter's limit)
         toks = re.findall(r"[A-Za-z_]\w*", expr)
         return sorted(set(toks))
     return sorted(n["var"] | n["call"] | n["idx"] | n["sub"])
